@@ -60,5 +60,29 @@ func checkPlanFor(prop, tier string) *checkPlan {
 }
 
 func checkPlanMore(prop, tier string, n func(int, int) int, comp map[string][]string, histAssume []string) *checkPlan {
+	switch prop {
+	case "C04":
+		return &checkPlan{Prop: prop, Level: "fault_enumeration", BudgetS: n(240, 2400), Measure: "lifecycle_cells",
+			Batches: []batchSpec{
+				{Label: "fault", Engine: "fault", Prop: "C04", Runs: n(480, 24000)},
+			},
+			Rule: "one run = one seeded history over 2-5 objects chosen by scope class (clearly in / clearly out of the TLS, S/MIME and code-signing documents, CRL, OCSP) and re-dated before / inside / after the probes' windows, 1-3 registries holding probe lints (every kind x source x configurable x window shape) next to real lints, 1-3 configurations (legal, inapplicable, odd); each probe op scripts every selected probe's outcome (applicability, each of the 8 statuses and out-of-range values, details incl. non-UTF-8, panics of four kinds at three points) and judges result and call log against the lifecycle model; direct ops compare every real lint's framework result with its own CheckApplies/Execute on a fresh, freshly configured instance. distinct_nontrivial = distinct lifecycle cells (kind, scope class, configurable, configuration state, applies, window shape, window position, scripted status, panic kind/point) judged.",
+			Assumption: []string{
+				"'clearly out of scope' is defined conservatively from the property text (EKU present without the relevant/any purpose and no CA/B Forum policy OID); objects in between are not judged",
+				"window positions within one day of a bound are not judged (the boundary instant is C03, not claimed)",
+				"for OCSP responses the position is judged only when thisUpdate, nextUpdate and producedAt fall on the same side",
+				"extra calls the property does not forbid (a second CheckApplies) are not judged",
+			},
+			Components: comp}
+	case "C01":
+		return &checkPlan{Prop: prop, Level: "fault_enumeration", BudgetS: n(240, 2400), Measure: "status_mix_cells",
+			Batches: []batchSpec{
+				{Label: "fault", Engine: "fault", Prop: "C01", Runs: n(320, 16000)},
+				{Label: "hist-hostile", Engine: "hist", Prop: "C01", Runs: n(240, 12000), FaultFree: true},
+			},
+			Rule: "after every lint call of every run the result set is checked against the registry model: non-nil, keys = exactly the model's lints of the object's kind, every result non-nil with the registered metadata and one of the seven statuses, each presence flag <=> some result has that status, version = major version of the module path; a panic reaching the harness's recover is a violation; injected probe panics must come back as that probe's fatal result; every real lint's result is compared with the fresh-process reference. Fault batch: scripted status mixes (all 16 flag masks x 3 kinds driven explicitly), probe panics, inapplicable configurations; hist batch: real lints over corpus and mutated (byte-flipped, re-dated) objects through nested filters. distinct_nontrivial = distinct (kind, flag mask, selection size class) cells observed.",
+			Assumption: []string{"the clause 'real lints emit only the seven statuses on every input' is monitored on every result seen, but the search is not aimed at inputs (C02 is not claimed)", "hang detection is a wall-clock watchdog per worker process (a hang inside a lint body reaches no yield point)"},
+			Components: comp}
+	}
 	return nil
 }
